@@ -102,3 +102,10 @@ Example C01_rest_example :
 :return: the outcome
 ".
 Proof. vm_compute. repeat split; reflexivity. Qed.
+
+(* the token lists of Model/RestDoc.v are the ones the source declares (TOKENS.rest and its split into ARG_TOKENS / RETURN_TOKENS,
+   regenerated from cdd/shared/docstring_utils.py on every run by translate/constants.py) *)
+From CDD Require Import SourceConstants.
+Theorem C01_rest_tokens_are_the_sources :
+  arg_tokens = src_rest_arg_tokens /\ return_tokens = src_rest_return_tokens /\ all_tokens = src_rest_tokens.
+Proof. repeat split; vm_compute; reflexivity. Qed.
